@@ -130,9 +130,11 @@ pub fn c10(ctx: &Ctx, stage: &str) -> Frag {
         runner.run(&(subgen::sub_case(), any::<u64>(), any::<u8>()), body)
     };
     let mut s = st.into_inner();
-    if res.is_err() {
+    if let Err(e) = &res {
         if let Some(v) = s.failed.take() {
             s.frag.violation(v);
+        } else {
+            s.frag.notes.push(format!("proptest aborted without a recorded violation: {}", e.to_string().chars().take(500).collect::<String>()));
         }
     }
     s.frag
@@ -275,9 +277,11 @@ pub fn c16(ctx: &Ctx) -> Frag {
         Ok(())
     });
     let mut s = st.into_inner();
-    if res.is_err() {
+    if let Err(e) = &res {
         if let Some(v) = s.failed.take() {
             s.frag.violation(v);
+        } else {
+            s.frag.notes.push(format!("proptest aborted without a recorded violation: {}", e.to_string().chars().take(500).collect::<String>()));
         }
     }
     s.frag.extra.insert("searches".into(), json!(s.stats.searches));
